@@ -1459,6 +1459,18 @@ impl Analyzable for TxDef {
             }
         }
 
+        // input blocks are resolved through one query map keyed by their lower-cased
+        // name, where two of them would collapse into one query
+        let mut input_names = std::collections::HashSet::new();
+
+        for input in self.inputs.iter() {
+            if !input_names.insert(input.name.to_lowercase()) {
+                params
+                    .errors
+                    .push(Error::DuplicateDefinition(input.name.clone()));
+            }
+        }
+
         // create the new scope and populate its symbols
 
         let mut scope = Scope::new(parent.clone());
